@@ -506,6 +506,8 @@ qb_vsnprintf_serialize(char *serialize, size_t max_len,
 	for (;;) {
 		type_long = QB_FALSE;
 		type_longlong = QB_FALSE;
+		sformat_length = 0;
+		sformat_precision = QB_FALSE;
 		p = strchrnul((const char *)format, '%');
 		if (*p == '\0') {
 			break;
